@@ -1,9 +1,11 @@
-\* one request/response round, 2 retransmissions, up to 8 deliveries, arbitrary loss and duplication
+\* one request/response round, 2 retransmissions, up to 7 deliveries, one slow send, arbitrary loss and duplication
 SPECIFICATION Spec
 CONSTANTS
   MaxRetrans = 2
-  MaxDeliveries = 8
+  MaxDeliveries = 7
   Rounds = 1
+  MaxSlow = 1
+  Recheck = TRUE
   MaxOps = 40
 VIEW view
 INVARIANTS SuccessIsTrue AtMostOnceInOrder RetransIdentical Budget
